@@ -28,6 +28,7 @@ SPELL = {
     "b32": lambda: pt.Bytes("base32", "ME"), "be": lambda: pt.Bytes(""), "be16": lambda: pt.Bytes("base16", ""),
     "addr": lambda: pt.Addr(GOOD_ADDR), "meth": lambda: pt.MethodSignature("f()void"),
     "tb": lambda: pt.Tmpl.Bytes("TMPL_B"), "bq": lambda: pt.Bytes('q"\\\n;//'),
+    "bu": lambda: pt.Bytes("\u00e9\U0001f600"), "bs": lambda: pt.Bytes('\\"\x00\t'),
 }
 RANK_POOL = {
     "s0": lambda: pt.Int(0), "s1": lambda: pt.Int(1), "s2": lambda: pt.Int(2), "s3": lambda: pt.Int(3),
@@ -37,7 +38,7 @@ RANK_POOL = {
     "be": lambda: pt.Bytes("e"), "bf": lambda: pt.Bytes("base64", "Zg=="), "bT": lambda: pt.Tmpl.Bytes("TMPL_Y"),
 }
 INTS = ["i0", "i1", "i127", "i128", "imax", "optin", "pay", "ti"]
-BYTES = ["ba", "b16", "b64", "b32", "be", "be16", "addr", "meth", "tb", "bq"]
+BYTES = ["ba", "b16", "b64", "b32", "be", "be16", "addr", "meth", "tb", "bq", "bu", "bs"]
 
 
 def seq_program(names):
